@@ -158,9 +158,10 @@ int main(int argc, char** argv) {
         GGeom A, B;
         if (cov) { A = coverage(r, out); B.container = 2; }
         else {
-            A = gen.geom(3, true, false);
+            auto kind = [&]() { int k = (int) r.below(100); return k < 50 ? 2 : k < 78 ? 1 : k < 88 ? 0 : 3; };
+            A = gen.geom(kind(), true, false);
             gen.setPartner(A, r.chance(80) ? 55 : 0);
-            B = r.chance(4) ? A : gen.geom(3, true, false);
+            B = r.chance(4) ? A : gen.geom(kind(), true, false);
             if (r.chance(50)) std::swap(A, B); }
         std::string ta, tb; Xform t; DX d;
         if (!dbl) { t = gen.xform(); ta = GridGen::geomTok(A, t); tb = GridGen::geomTok(B, t); }
